@@ -199,10 +199,10 @@ theorem kidsEd_cost_zero (fcs tcs : List XTree) (pen : Nat) (hpen : 0 < pen) (tb
   rw [xeqL_iff]
   exact hall
 
-theorem kidsScript_cost_zero (fcs tcs : List XTree) (tbl : List (List XScript))
+theorem kidsScript_cost_zero (o : Opts) (fcs tcs : List XTree) (tbl : List (List XScript))
     (H : ∀ i j, i < fcs.length → j < tcs.length →
       ((tbl.getD i []).getD j (xMatch 0)).cost = 0 → (fcs.getD i dX).eq (tcs.getD j dX) = true)
-    (h : (kidsScript fcs tcs tbl).cost = 0) : xeqL fcs tcs = true := by
+    (h : (kidsScript o fcs tcs tbl).cost = 0) : xeqL fcs tcs = true := by
   unfold kidsScript at h
   split at h
   · assumption
@@ -244,11 +244,11 @@ theorem xml_cost_zero_imp_eq (o : Opts) (orc : Oracle) (f : XTree) : ∀ (fp tp 
       have h1 : (strEdits ftag ttag).cost = 0 := by omega
       have h2 : (edits o orc (fp ++ [1]) (tp ++ [1]) fattr tattr).cost = 0 := by omega
       have h3 : (match textEdit ftext ttext with | some e => e.cost | none => 0) = 0 := by omega
-      have h4 : (kidsScript fcs tcs (kidsTbl o orc fp tp (kidsIx ftext) (kidsIx ttext) fcs tcs)).cost = 0 := by omega
+      have h4 : (kidsScript o fcs tcs (kidsTbl o orc fp tp (kidsIx ftext) (kidsIx ttext) fcs tcs)).cost = 0 := by omega
       have e1 := (strEdits_cost_zero_iff _ _).1 h1
       have e2 := cost_zero_imp_eq o orc _ fattr (Nat.le_refl _) _ _ tattr hf.1 ht.1 h2
       have e3 := textEdit_cost_zero _ _ h3
-      have e4 := kidsScript_cost_zero fcs tcs _ (fun i j hi hj hc => by
+      have e4 := kidsScript_cost_zero o fcs tcs _ (fun i j hi hj hc => by
         rw [kidsTbl_getD _ _ _ _ _ _ _ _ _ _ _ hi hj] at hc
         have e : fcs.getD i dX = fcs[i] := by simp [List.getD_eq_getElem?_getD, hi]
         have e' : tcs.getD j dX = tcs[j] := by simp [List.getD_eq_getElem?_getD, hj]
